@@ -5,6 +5,8 @@ Model: Greedy.engineLine / standalone / filtration / Ctc.collapse on Ctc.argmaxF
 """
 import itertools
 
+import os
+
 import numpy as np
 
 from . import common
@@ -146,6 +148,51 @@ def run(ctx):
             ctx.violation('engine:' + kind, 'engine greedy decoder != CTC collapse of the arg-max path (extreme scores)', inp, eng, exp_s)
         if st != exp_s:
             ctx.violation('standalone:' + kind, 'stand-alone GreedyDecoder != CTC collapse of the arg-max path (extreme scores)', inp, st, exp_s)
+    # ---- the whole engine (PytorchEngineLineOCR.process_lines -> run_ocr -> greedy_decode_ctc): the text returned for a line is
+    # the CTC collapse of the arg-max path of the network output RETURNED for that line, and what the stand-alone decoder reads
+    # from it - for every line of every batch, also for a network that does not answer "blank" on padding
+    import shutil, tempfile
+    from . import stubs
+    tmp = tempfile.mkdtemp(prefix='verif_c04_')
+    try:
+        engines = {}
+        for it in range(40 if ctx.quick() else 300):
+            pad_class = rng.choice([-1, 0, -2, -2])
+            bs = rng.choice([2, 4, 8])
+            if (pad_class, bs) not in engines:
+                d = os.path.join(tmp, 'e%d_%d' % (pad_class, bs))
+                os.makedirs(d, exist_ok=True)
+                engines[(pad_class, bs)] = stubs.make_engine(d, batch_size=bs, pad_class=pad_class, gain=rng.choice([0.6, 1.5]))
+            eng, chars = engines[(pad_class, bs)]
+            ws = [rng.choice([rng.randrange(8, 60), rng.randrange(60, 400)]) for _ in range(rng.randrange(1, 7))]
+            lines = [stubs.random_line(rng, w) for w in ws]
+            inp = dict(stage='process_lines', widths=ws, batch_size=bs, padding_answer={-1: 'blank', -2: 'characters 0 and 1 in turn'}.get(pad_class, 'character %d' % pad_class))
+            ctx.evaluations += 1
+            try:
+                tr, lg, co = eng.process_lines(lines, sparse_logits=False)
+            except Exception as e:
+                ctx.violation('engine-lines-raises:' + type(e).__name__, 'process_lines raised %r' % (e,), inp)
+                continue
+            dec = GreedyDecoder(list(chars) + [BLANK_SYMBOL])
+            for i in range(len(lines)):
+                z = np.asarray(lg[i], dtype=np.float64)
+                am = [int(np.argmax(f)) for f in z]
+                margins = np.sort(z, axis=1)
+                if z.shape[1] > 1 and (margins[:, -1] - margins[:, -2]).min(initial=1.0) < 1e-5:
+                    ctx.count('engine_lines_ties_skipped')
+                    continue
+                exp_s = ''.join(chars[c] for c in ref_collapse(am, len(chars)))
+                lp = z - np.logaddexp.reduce(z, axis=1)[:, None]
+                st = dec(lp).best_hyp()
+                if tr[i] != exp_s or st != exp_s:
+                    ctx.violation('engine-lines', "the engine's text for a line is not the CTC collapse of the arg-max path of the logits returned "
+                                  'for that line / differs from the stand-alone decoder on them', inp, [i, tr[i], st], exp_s)
+                    break
+            if len(set(ws)) > 1 and pad_class != -1:
+                ctx.nontriv(inp)
+            ctx.count('engine_lines_cases')
+    finally:
+        shutil.rmtree(tmp, ignore_errors=True)
     if ctx.driver_ok:
         rep = common.Driver(ctx).batch(reqs)
         for r, (am, e, s, f, chars), q in zip(rep, impl, reqs):
